@@ -2,10 +2,9 @@ SPECIFICATION Spec
 CONSTANTS Kind = "set"
           Keys = {0, 1, 2}
           M = 3
-          MaxVer = 2
+          MaxVer = 3
           KLen = 1
           GenDepth = 0
-CONSTRAINT Bounded
 INVARIANTS TypeInv LawInv CanonInv LiveInv
 PROPERTIES Persist
 CHECK_DEADLOCK FALSE
